@@ -18,7 +18,7 @@ FILES = ["pyoda_time/time_zones/Tzdb.nzd", "tests/test_data/Tzdb2013bFromNodaTim
 
 META = {
     "property": "C14",
-    "proof_modules": ["PyodaProofs.C14", "PyodaProofs.C14Session"],
+    "proof_modules": ["PyodaProofs.C14", "PyodaProofs.C14Session", "PyodaProofs.GenAgreeC14", "PyodaProofs.GenAgreeC14S", "PyodaProofs.GenAgreeC14V", "PyodaProofs.GenAgreeC14W"],
     "drivers": ["drv_codec"],
     "theorems": [
         "Pyoda.C14.read_write_byte", "Pyoda.C14.read_write_varint", "Pyoda.C14.read_write_count",
@@ -37,11 +37,47 @@ META = {
         "Pyoda.C14.hasMoreDataM_spec", "Pyoda.C14.peek_iff_remaining", "Pyoda.C14.peek_pure",
         "Pyoda.C14.val_roundtrip", "Pyoda.C14.session_roundtrip",
         "Pyoda.C14.stepW_writeString", "Pyoda.C14.writeString_uses_current_pool",
+        # agreement of the definitions generated from the Python source (tools/py2lean.py) with the model
+        "Pyoda.GenAgree.C14.gen_Reader_ctor_eq", "Pyoda.GenAgree.C14.gen_Reader_readByte_eq",
+        "Pyoda.GenAgree.C14.gen_Reader_hasMoreData_eq", "Pyoda.GenAgree.C14.gen_Reader_readInt16_eq",
+        "Pyoda.GenAgree.C14.gen_Reader_readInt32_eq", "Pyoda.GenAgree.C14.gen_Reader_readInt64_eq",
+        "Pyoda.GenAgree.C14.gen_Reader_readVarint_loop1_eq", "Pyoda.GenAgree.C14.gen_Reader_readVarint_eq",
+        "Pyoda.GenAgree.C14.gen_Reader_readCount_eq", "Pyoda.GenAgree.C14.gen_Reader_readSignedCount_eq",
+        "Pyoda.GenAgree.C14.gen_Reader_readMilliseconds_eq", "Pyoda.GenAgree.C14.gen_Reader_readOffset_eq",
+        "Pyoda.GenAgree.C14.gen_Reader_readTransitionNone_eq", "Pyoda.GenAgree.C14.gen_Reader_readTransitionSome_eq",
+        "Pyoda.GenAgree.C14.gen_Reader_readString_loop1_eq", "Pyoda.GenAgree.C14.gen_Reader_readString_eq",
+        "Pyoda.GenAgree.C14.gen_Reader_readDictionary_loop1_eq", "Pyoda.GenAgree.C14.gen_Reader_readDictionary_eq",
+        "Pyoda.GenAgree.C14.gen_YearOffset_read_eq", "Pyoda.GenAgree.C14.gen_Recurrence_read_eq",
+        "Pyoda.GenAgree.C14.gen_MapZone_ctor_eq", "Pyoda.GenAgree.C14.gen_MapZone_read_loop1_eq",
+        "Pyoda.GenAgree.C14.gen_MapZone_read_eq", "Pyoda.GenAgree.C14.gen_ZoneLocation_read_eq",
+        "Pyoda.GenAgree.C14.gen_WindowsZones_read_loop1_eq", "Pyoda.GenAgree.C14.gen_WindowsZones_read_eq",
+        "Pyoda.GenAgree.C14.gen_Zone1970Location_read_loop1_eq", "Pyoda.GenAgree.C14.gen_Zone1970Location_read_eq",
+        "Pyoda.GenAgree.C14S.gen_Field_ctor_eq", "Pyoda.GenAgree.C14S.gen_Field_getId_eq",
+        "Pyoda.GenAgree.C14S.gen_readFields_step", "Pyoda.GenAgree.C14S.gen_Field_readFieldsNext_loop1_eq",
+        "Pyoda.GenAgree.C14S.gen_Field_readFieldsNext_eq",
+        "Pyoda.GenAgree.C14V.gen_Validate_canonAndPrimary_loop1_eq",
+        "Pyoda.GenAgree.C14V.gen_Validate_canonAndPrimary_loop2_eq",
+        "Pyoda.GenAgree.C14V.gen_Validate_canonAndPrimary_eq", "Pyoda.GenAgree.C14V.gen_Validate_locations_loop1_eq",
+        "Pyoda.GenAgree.C14V.gen_Validate_locations_eq", "Pyoda.GenAgree.C14V.gen_Validate_locationsNone_eq",
+        "Pyoda.GenAgree.C14V.gen_Validate_locations1970_loop1_eq",
+        "Pyoda.GenAgree.C14V.gen_Validate_locations1970_eq", "Pyoda.GenAgree.C14V.gen_Validate_locations1970None_eq",
+        "Pyoda.GenAgree.C14V.gen_Validate_tzdbIds_loop2_eq", "Pyoda.GenAgree.C14V.gen_Validate_tzdbIds_loop1_eq",
+        "Pyoda.GenAgree.C14V.gen_Validate_tzdbIds_eq", "Pyoda.GenAgree.C14W.gen_Writer_ctor_eq",
+        "Pyoda.GenAgree.C14W.gen_Writer_writeByte_eq", "Pyoda.GenAgree.C14W.gen_Writer_writeVarint_loop1_eq",
+        "Pyoda.GenAgree.C14W.gen_Writer_writeVarint_eq", "Pyoda.GenAgree.C14W.gen_Writer_writeVarint_neg",
+        "Pyoda.GenAgree.C14W.gen_Writer_writeCount_eq", "Pyoda.GenAgree.C14W.gen_Writer_writeSignedCount_eq",
+        "Pyoda.GenAgree.C14W.gen_Writer_writeInt16_eq", "Pyoda.GenAgree.C14W.gen_Writer_writeInt32_eq",
+        "Pyoda.GenAgree.C14W.gen_Writer_writeInt64_eq", "Pyoda.GenAgree.C14W.gen_Writer_writeMilliseconds_eq",
+        "Pyoda.GenAgree.C14W.gen_Writer_writeOffset_eq", "Pyoda.GenAgree.C14W.gen_Writer_writeString_eq",
+        "Pyoda.GenAgree.C14W.gen_checkNotNullDict_eq", "Pyoda.GenAgree.C14W.gen_Writer_writeDictionary_loop1_eq",
+        "Pyoda.GenAgree.C14W.gen_Writer_writeDictionary_eq", "Pyoda.GenAgree.C14W.gen_Writer_writeTransitionNone_eq",
+        "Pyoda.GenAgree.C14W.gen_Writer_writeTransitionSome_eq",
     ],
     "trusted_base": [
         "Python str <-> UTF-8 bytes is a bijection on strings without lone surrogates (the model keeps strings as their encodings)",
         "bit operations of the code (&, |, >>, <<) equal the arithmetic forms used in the model on the stated ranges (sampled by suite codec.prim)",
         "io.BytesIO read/write semantics",
+        "translator tie (tools/py2lean.py; GenAgreeC14 / GenAgreeC14W): _DateTimeZoneReader, _DateTimeZoneWriter, one next() of _TzdbStreamField._read_fields and the readers _ZoneYearOffset.read / _ZoneRecurrence.read / MapZone._read / TzdbZoneLocation._read are re-translated from the source on every run as state-passing functions over the object state and proved equal to the reader state machine of Codec/Session.lean / the pure writers of Codec/Prim.lean. Assumed: stream.read(n) keeps the RawIOBase contract (PolicyOk: >= 1 byte unless at the end, <= n) and the bytes are < 256; stream.write accepts the whole buffer; Offset/Instant/Duration members are the model's (tied by GenAgreeC03); _EPOCH_FOR_MINUTES_SINCE_EPOCH = Instant.from_utc(1800,1,1,0,0) is the model's EPOCH1800 (correspondence); str.encode/bytes.decode are the identity / strict UTF-8 check on encodings; the translator's own semantics (self-test oracle of C03)",
         "sessions: the caller's operations on the shared pool list (clear, slice assignment, append) and the reader's one-byte look-ahead are what PoolAct.apply / RState describe (suite codec.sessions drives one real writer and one real reader per session)",
     ],
     "partial": [
